@@ -52,7 +52,7 @@ void compute_xInt(double *xx, int N, double *xInt){
 void compute_delj(double *dx, double *MInt, double *VInt,
         int N, double *delj, int use_delj_trick){
     int ii;
-    double wj, epsj;
+    double wj, uj, epsj;
     if(!use_delj_trick){
         for(ii=0; ii < N-1; ii++)
             delj[ii] = 0.5;
@@ -61,8 +61,13 @@ void compute_delj(double *dx, double *MInt, double *VInt,
 
     for(ii=0; ii < N-1; ii++){
         wj = 2 * MInt[ii] * dx[ii];
-        epsj = exp(wj/VInt[ii]);
-        if((epsj != 1.0) && (wj != 0))
+        uj = wj/VInt[ii];
+        epsj = exp(uj);
+        if(fabs(uj) < 1e-2)
+            /* The expression below is 1/(1-exp(-u)) - 1/u, which loses all
+             * accuracy to cancellation as u -> 0. Use its series there. */
+            delj[ii] = 0.5 + uj/12 - uj*uj*uj/720;
+        else if((epsj != 1.0) && (wj != 0))
             delj[ii] = (-epsj*wj + epsj*VInt[ii] - VInt[ii])/(wj - epsj*wj);
         else
             delj[ii] = 0.5;
